@@ -95,6 +95,8 @@ func runC20(p *Prog, r *Report, tier string) {
 	r.floor("reachable-functions", len(reach), 80)
 	plens := p.parseFieldLens()
 	r.floor("parse-field-widths", len(plens), 6)
+	// the widths of open-ended tail fields rest on the exact-length contracts of the Parse functions
+	parseContracts(p, r)
 
 	sites := p.panicSites(reach)
 	ctx := map[*ssa.Function]*FC{}
@@ -135,6 +137,27 @@ func runC20(p *Prog, r *Report, tier string) {
 				ok, how = c.proveIndex(in.X, in.Index, in, plens)
 			case *ssa.Index:
 				ok, how = c.proveIndex(in.X, in.Index, in, plens)
+			}
+			recordSite(p, r, c, s, key, pos, ok, how)
+		case "makeslice":
+			ok, how := c.proveNonNegative(s.In.(*ssa.MakeSlice).Len, s.In, plens)
+			if ms := s.In.(*ssa.MakeSlice); ok && ms.Cap != ms.Len {
+				if _, capConst := constInt(ms.Cap); !capConst && c.term(ms.Cap, ms) != c.term(ms.Len, ms) {
+					// len <= cap must hold too: only cap = len + (something non-negative) is recognised
+					ok2 := false
+					if bo, isAdd := ms.Cap.(*ssa.BinOp); isAdd && bo.Op == token.ADD {
+						for _, pair := range [][2]ssa.Value{{bo.X, bo.Y}, {bo.Y, bo.X}} {
+							if c.term(pair[0], ms) == c.term(ms.Len, ms) {
+								if nn, _ := c.proveNonNegative(pair[1], ms, plens); nn {
+									ok2 = true
+								}
+							}
+						}
+					}
+					if !ok2 {
+						ok, how = false, "capacity is not provably >= length"
+					}
+				}
 			}
 			recordSite(p, r, c, s, key, pos, ok, how)
 		case "mapupdate":
@@ -344,6 +367,47 @@ func recordSite(p *Prog, r *Report, c *FC, s panicSite, key, pos string, ok bool
 		}
 	}
 	r.fail("P-site", key, pos, fmt.Sprintf("%s in %s may be out of range: %s (%s)", s.Kind, funcName(s.Fn), s.Desc, how))
+}
+
+// proveNonNegative: an integer expression that cannot be negative (a slice length for make).
+func (c *FC) proveNonNegative(v ssa.Value, at ssa.Instruction, plens map[string]int) (bool, string) {
+	if k, ok := constInt(v); ok {
+		return k >= 0, "constant"
+	}
+	switch v := v.(type) {
+	case *ssa.Call:
+		if bi, ok := v.Call.Value.(*ssa.Builtin); ok && (bi.Name() == "len" || bi.Name() == "cap") {
+			return true, "a length"
+		}
+	case *ssa.Convert:
+		if b, ok := v.X.Type().Underlying().(*types.Basic); ok && b.Info()&types.IsUnsigned != 0 {
+			// uintN -> int can wrap only for 64-bit values; the module's sizes are uint32/len
+			if b.Kind() != types.Uint64 && b.Kind() != types.Uint && b.Kind() != types.Uintptr {
+				return true, "conversion of a narrow unsigned value"
+			}
+		}
+		return c.proveNonNegative(v.X, at, plens)
+	case *ssa.BinOp:
+		switch v.Op {
+		case token.ADD, token.MUL:
+			a, _ := c.proveNonNegative(v.X, at, plens)
+			b, _ := c.proveNonNegative(v.Y, at, plens)
+			return a && b, "sum/product of non-negative terms"
+		case token.SUB:
+			// C - len(y) with len(y) <= C
+			if k, ok := constInt(v.X); ok {
+				if call, ok := v.Y.(*ssa.Call); ok {
+					if bi, ok := call.Call.Value.(*ssa.Builtin); ok && bi.Name() == "len" {
+						y := c.lenOf(call.Call.Args[0], at, plens)
+						if y.max >= 0 && y.max <= k {
+							return true, fmt.Sprintf("%d - len(y) with len(y) <= %d", k, y.max)
+						}
+					}
+				}
+			}
+		}
+	}
+	return false, "length not provably non-negative: " + c.term(v, at)
 }
 
 // dischargeRolePanic: the panic of a role getter is reachable only when its slot is absent,
@@ -603,6 +667,8 @@ func checkCtors(p *Prog, r *Report, reach map[*ssa.Function]bool, fc func(*ssa.F
 					recv := c.x.Of(args[0], call).String()
 					r.check(lf.min >= 32 && strings.HasPrefix(recv, "(sdkmath.Int).BigInt("), "P-ctor", key("FillBytes"), pos, "32-byte buffer for a math.Int (<= 256 bits by type invariant)",
 						fmt.Sprintf("FillBytes panics when the value does not fit: buffer len >= %d, receiver %s", lf.min, recv))
+				case strings.Contains(name, "Endian).AppendUint"):
+					// appends: never indexes its argument
 				case strings.HasPrefix(name, "(encoding/binary.bigEndian).") || strings.HasPrefix(name, "(encoding/binary.littleEndian)."):
 					n++
 					w := 4
